@@ -257,6 +257,23 @@ def check_hmac(ck_ob, mod, label):
     ps = ex.run()
     ev = calls(ps[0]) if len(ps) == 1 else []
     ok = len(ps) == 1 and len(ev) == 1 and ev[0][2] == "tinyjambu_hash_update" and ev[0][3] == (repr(Lf.s(("arg", 0))), repr(Lf.s(("arg", 1))), repr(Lf.s(("n", 2))))
+    if len(ps) > 1:
+        # several paths: each is the plain hash_update, or does nothing where the conditions say inlen == 0 (an update of length 0 is a no-op
+        # of the hash: C10/C11's stream rule); anything else is a shape this rule does not read
+        L_ = repr(Lf.s(("n", 2)))
+        kinds = []
+        for p_ in ps:
+            e_ = calls(p_)
+            zero = any(len(c_) == 3 and repr(c_[1]) == L_ and ((c_[0] == "eq" and c_[2] is True) or (c_[0] == "ne" and c_[2] is False)) for c_ in getattr(p_, "conds", []))
+            if p_.end[0] == "ret" and len(e_) == 1 and e_[0][2] == "tinyjambu_hash_update" and e_[0][3] == (repr(Lf.s(("arg", 0))), repr(Lf.s(("arg", 1))), L_):
+                kinds.append("plain")
+            elif p_.end[0] == "ret" and not e_ and zero:
+                kinds.append("nothing-for-0")
+            else:
+                kinds.append(None)
+        if None in kinds or "plain" not in kinds:
+            raise Broken("tinyjambu_hmac_update has %d paths that are not all 'plain hash_update' / 'nothing for length 0': this shape is not analysed" % len(ps))
+        ok, ev = True, []
     ck_ob(ok, "SEQ", f.name, "update-wrapper[%s]" % label, "hmac_update = hash_update(inner state, in, inlen)", "hmac_update is not a plain hash_update of the inner state: %s" % [(e[2], e[3]) for e in ev],
           relpath("%s:%d" % (f.file, f.line)))
     # finalize
